@@ -359,7 +359,8 @@ def evOf (c : Nat) : ServerEv :=
   if c = 0 then .connect
   else if 100 ≤ c ∧ c < 200 then .text (c - 100)
   else if 200 ≤ c ∧ c < 300 then .bytes (c - 200)
-  else if 300 ≤ c ∧ c < 400 then .disconnect (1000 + (c - 300))
+  else if 300 ≤ c ∧ c < 350 then .disconnect (1000 + (c - 300))
+  else if 350 ≤ c ∧ c < 400 then .disconnect (2999 + (c - 350) * 500)   -- codes outside the registered range
   else .other (typeOf (c - 400))
 
 def ServerEv.render : ServerEv → String
